@@ -83,6 +83,10 @@ var c11Queries = []c11q{
 	{"dual-alias-union", "SELECT 1 < 2 AS c FROM dual x UNION ALL SELECT id > 0 AS c FROM `{R}t`"},
 	{"dual-alias-derived", "SELECT * FROM (SELECT 2 > 1 AS c, (SELECT COUNT(*) AS n FROM `{R}u`) AS n FROM dual y) AS d"},
 	{"dual-alias-where", "SELECT 'k' AS k FROM dual x WHERE 1 = 1 AND EXISTS (SELECT id FROM `{R}t`)"},
+	// top-level selector functions over arrays of the document (duplicates followed by new values)
+	{"distinct-selector", "SELECT id, `distinct=>tags` AS tags FROM `{R}t`"},
+	{"distinct-selector", "SELECT `distinct=>{R}t[each].b` AS bs, `distinct=>{R}t[0].tags` AS t0 FROM dual"},
+	{"mix-selector", "SELECT id, `mix=>grid` AS flat FROM `{R}t`"},
 }
 
 // fault templates: FAULT / RAISE_WHEN spliced into every clause position
@@ -157,7 +161,7 @@ func c11Docs() []func() map[string]any {
 		for _, q := range qs {
 			items = append(items, map[string]any{"q": q})
 		}
-		return map[string]any{"id": id, "a": a, "b": b, "n": nil, "o": map[string]any{"p": a * 10, "r": "s"}, "items": withCap(items...), "grid": withCap(withCap(a, id), withCap(id))}
+		return map[string]any{"id": id, "a": a, "b": b, "n": nil, "o": map[string]any{"p": a * 10, "r": "s"}, "items": withCap(items...), "grid": withCap(withCap(a, id), withCap(id)), "tags": withCap("x", "x", b, "x", "y")}
 	}
 	return []func() map[string]any{
 		func() map[string]any {
@@ -308,7 +312,7 @@ func (p *c11) RunCase(i int) *core.CaseResult {
 
 func (p *c11) Meta() core.Meta {
 	return core.Meta{
-		Rule:        "one case per (query, Wrapped or not): 61 queries covering every clause kind (WHERE operator families, projections incl. star / FUSE / path selectors / pipes, ORDER BY / LIMIT, DISTINCT, GROUP BY / HAVING / aggregates, every join strategy incl. INTO and PARALLEL, UNION, CTEs incl. one that shadows a document key and WITH clauses below the outermost statement, joins without table aliases, derived tables, select-list / IN / EXISTS subqueries with <-, nested FROM and mix=>, ASYNC / SPINASYNC / ONCE / SETVAR functions, dual with and without an alias) and 35 fault templates with FAULT(x) / RAISE_WHEN / a type error in every clause position, incl. nested queries that fail while being built (derived table / CTE / union branch / join side / bad selector inside a select-list, IN or EXISTS subquery); on 5 documents (spare capacity with sentinel values in every array, empty, single row, a document whose arrays and rows are aliased); fault templates are run fault-free to count the N invocations of the fault point and then once per k in 1..N. Oracle: cycle-safe deep comparison of the caller's document (keys, values, lengths, spare capacity) with a snapshot taken before New. non-trivial = the query returned rows / a fault fired",
+		Rule:        "one case per (query, Wrapped or not): 64 queries covering every clause kind (WHERE operator families, projections incl. star / FUSE / path selectors / pipes, ORDER BY / LIMIT, DISTINCT, GROUP BY / HAVING / aggregates, every join strategy incl. INTO and PARALLEL, UNION, CTEs incl. one that shadows a document key and WITH clauses below the outermost statement, joins without table aliases, derived tables, select-list / IN / EXISTS subqueries with <-, nested FROM and mix=>, ASYNC / SPINASYNC / ONCE / SETVAR functions, dual with and without an alias) and 35 fault templates with FAULT(x) / RAISE_WHEN / a type error in every clause position, incl. nested queries that fail while being built (derived table / CTE / union branch / join side / bad selector inside a select-list, IN or EXISTS subquery); on 5 documents (spare capacity with sentinel values in every array, empty, single row, a document whose arrays and rows are aliased); fault templates are run fault-free to count the N invocations of the fault point and then once per k in 1..N. Oracle: cycle-safe deep comparison of the caller's document (keys, values, lengths, spare capacity) with a snapshot taken before New. non-trivial = the query returned rows / a fault fired",
 		Assumptions: []string{"the result may share structure with the input (rows are passed by reference); only writes by the library are violations", "ASYNC functions of the harness do not modify their arguments"},
 		Bounds:      map[string]any{"queries": len(c11Queries), "fault_templates": len(c11Faulted), "documents": len(p.docs)},
 		Exhaustive:  true,
